@@ -302,7 +302,112 @@ func RandomProgram(seed uint64, o RandomOpts) *Program {
 	if len(c.Types) > 0 {
 		c.InjectedFields = map[string][]Injected{c.Types[0]: {{Name: "id", Type: "github.com/hashicorp/terraform-plugin-framework/types.StringType", Computed: true}}}
 	}
+	// a nested message that is a selected type as well
+	if r.p(1, 2) {
+		for _, m := range p.Messages {
+			if len(m.Fields) > 0 && !strings.HasPrefix(m.Name, "Root") && r.p(1, 3) {
+				sel := false
+				for _, t := range c.Types {
+					sel = sel || t == m.Name
+				}
+				if !sel {
+					c.Types = append(c.Types, m.Name)
+					break
+				}
+			}
+		}
+	}
+	// options keyed by full path (one occurrence), flags on oneof members, int32-valued schema type overrides
+	refs := p.FieldRefs()
+	var deepRefs, int32Refs []FieldRef
+	for _, fr := range refs {
+		if strings.Count(fr.Path, ".") >= 2 && !fr.UnderEmbed {
+			deepRefs = append(deepRefs, fr)
+		}
+		if (fr.F.Kind == KInt32 || fr.F.Kind == KSint32 || fr.F.Kind == KSfixed32) && fr.F.Cast == "" && fr.F.Card == CardOne {
+			int32Refs = append(int32Refs, fr)
+		}
+	}
+	if len(deepRefs) > 0 {
+		x := deepRefs[r.n(len(deepRefs))]
+		switch r.n(4) {
+		case 0:
+			if x.F.Oneof == "" && len(x.Msg.Fields)-excluded[x.Msg.Name] >= 3 {
+				c.ExcludeFields = append(c.ExcludeFields, x.Path)
+			}
+		case 1:
+			c.NameOverrides[x.Path] = "ov_path"
+		case 2:
+			c.ComputedFields = append(c.ComputedFields, x.Path)
+		default:
+			c.RequiredFields = append(c.RequiredFields, x.Path)
+		}
+	}
+	for _, fr := range refs {
+		if fr.F.Oneof != "" && r.p(1, 6) {
+			switch r.n(3) {
+			case 0:
+				c.ComputedFields = append(c.ComputedFields, fr.TypeKey)
+			case 1:
+				c.RequiredFields = append(c.RequiredFields, fr.TypeKey)
+			default:
+				c.SensitiveFields = append(c.SensitiveFields, fr.TypeKey)
+			}
+		}
+	}
+	if len(int32Refs) > 0 && r.p(2, 3) {
+		c.SchemaTypes = map[string]SchemaType{}
+		for i := 0; i < 2; i++ {
+			x := int32Refs[r.n(len(int32Refs))]
+			if r.p(1, 2) && !x.UnderEmbed {
+				c.SchemaTypes[x.Path] = SimInt32Override
+			} else {
+				c.SchemaTypes[x.TypeKey] = SimInt32Override
+			}
+		}
+	}
+	if r.p(1, 3) {
+		tt, dt := *SimTimeType, *SimDurationType
+		tt.TypeConstructor, dt.TypeConstructor = "UseSimTime()", "UseSimDuration()"
+		c.TimeType, c.DurationType = &tt, &dt
+	}
 	return p
+}
+
+// FieldRef is one reachable field occurrence with both of its option keys.
+type FieldRef struct {
+	Path, TypeKey string
+	Msg           *Message
+	F             *Field
+	UnderEmbed    bool
+}
+
+// FieldRefs lists every field occurrence reachable from the selected types (unexcluded view).
+func (p *Program) FieldRefs() []FieldRef {
+	var out []FieldRef
+	seen := map[string]bool{}
+	var walk func(n *Node)
+	walk = func(n *Node) {
+		for _, e := range n.Entries {
+			if e.Placeholder {
+				continue
+			}
+			if !seen[e.Path+"|"+e.TypeKey] {
+				seen[e.Path+"|"+e.TypeKey] = true
+				out = append(out, FieldRef{Path: e.Path, TypeKey: e.TypeKey, Msg: e.Decl, F: e.F, UnderEmbed: e.UnderEmbed})
+			}
+			if e.Child != nil {
+				walk(e.Child)
+			}
+		}
+	}
+	cfg := &Config{}
+	for _, r := range p.Config.Types {
+		if p.Msg(r) != nil {
+			walk(p.View(r, cfg))
+		}
+	}
+	return out
 }
 
 // FieldKeys lists, for every field reachable from the selected roots, its two option keys: the full
